@@ -3,7 +3,7 @@ tree for one scenario, validate every leaf path-wise against the specification's
 transition relation (early exit on the first impossible event), then compare the
 next-event kernel / clock rate / stopping behaviour at every history."""
 from . import kernel, observe, confirm
-from .scripted import explore, Incomplete, Unmodelled
+from .scripted import explore, Incomplete, Unmodelled, tagged
 
 N_CONFIRM = 20000        # seeded real runs used to confirm an exact-stage finding
 N_UNMODELLED = 5000      # seeded real runs per scenario when the scripted source cannot follow the implementation
@@ -70,7 +70,8 @@ def walk(fn_full, parse, st0, succ, rate_unit, horizon, max_exp, max_leaves=6000
 
     unmodelled = None
     try:
-        leaves = explore(fn_full, max_exp=max_exp, on_leaf=on_leaf, max_leaves=max_leaves, deep_is_error=(max_exp is not None))
+        with tagged():
+            leaves = explore(fn_full, max_exp=max_exp, on_leaf=on_leaf, max_leaves=max_leaves, deep_is_error=(max_exp is not None))
     except Unmodelled as ex:
         unmodelled = str(ex)
         leaves = Incomplete()
